@@ -62,6 +62,7 @@ def text_pool(seed):
         gen.Profile(resolutions=[20, 60], max_tasks=5, depth=2, subslot=True, unequal_teams=True, teams=True, alternatives=True, rates=True, weeks=(2, 3)),
     ]
     texts = []
+    siblings = []
 
     for k, pf in enumerate(profiles):
         box = []
@@ -74,9 +75,24 @@ def text_pool(seed):
 
         grab()
         spec = max(box, key=lambda s: len(list(s.iter_tasks())))
+        if k in (0, 3):
+            # a sibling that differs only in one global holiday (same interval, same resolution)
+            import copy
+            from datetime import timedelta
+
+            from ..spec import Leave
+
+            sib = copy.deepcopy(spec)
+            day = sib.start.replace(hour=0, minute=0)  # the first working day: that is where the work is
+            while day.weekday() >= 5:
+                day += timedelta(days=1)
+            sib.vacations = list(sib.vacations) + [Leave("vacation", day, None)]
+            sib.reports = [ReportDef(id="r1", name="sched", columns=["id", "start", "end"], formats=["json"])]
+            siblings.append(("sibling%d" % k, render(sib)))
         spec.reports = [ReportDef(id="r1", name="sched", columns=["id", "start", "end", "priority"], formats=["json", "csv"]),
                         ReportDef(id="r2", name="money", columns=["id", "name", "cost"], formats=["csv"], leafonly=True)][: 1 + k % 2]
         texts.append(("valid%d" % k, render(spec)))
+    texts.extend(siblings)
     fx = sorted(os.listdir(os.path.join(boot.REPO, "tests", "data")))
     for name in [f for f in fx if f.endswith(".tjp")][seed % 5:: 9][:2]:
         with open(os.path.join(boot.REPO, "tests", "data", name), errors="replace") as f:
